@@ -198,7 +198,11 @@ pub struct Tracker {
 }
 
 pub fn start_tracker(sw: u8, wm: u8) -> Tracker {
-    let cfg = json!({"socket_workers": sw, "swarm_workers": wm, "network": {"address": "127.0.0.1:PORT"}, "protocol": {"max_offers": 2}, "cleaning": {"max_peer_age": 100000, "max_offer_age": 100000, "torrent_cleaning_interval": 100000, "max_connection_idle": 100000}});
+    start_tracker_cleaning(sw, wm, json!({"max_peer_age": 100000, "max_offer_age": 100000, "torrent_cleaning_interval": 100000, "max_connection_idle": 100000}))
+}
+
+pub fn start_tracker_cleaning(sw: u8, wm: u8, cleaning: Value) -> Tracker {
+    let cfg = json!({"socket_workers": sw, "swarm_workers": wm, "network": {"address": "127.0.0.1:PORT"}, "protocol": {"max_offers": 2}, "cleaning": cleaning});
     let mut child = TrackerChild::spawn("ws", cfg, &[("AQV_PORT_PER_WORKER", "1".into())]);
     let t0 = Instant::now();
     'outer: loop {
@@ -794,6 +798,72 @@ pub fn burst(trk: &Tracker, ns: u64, n: usize, sender_worker: u8, receiver_worke
     (scrapes, announces, offers)
 }
 
+/// Connections the tracker closes itself (idle for longer than max_connection_idle): their peers must disappear too.
+/// A announces two torrents living on different swarm workers and goes silent; a monitor connection keeps scraping.
+pub fn idle_close_phase(sw: u8, wm: u8) -> (u64, Vec<(String, String, Value)>) {
+    let trk = start_tracker_cleaning(sw, wm, json!({"max_peer_age": 100000, "max_offer_age": 100000, "torrent_cleaning_interval": 100000, "max_connection_idle": 2, "connection_cleaning_interval": 1}));
+    let mut out = Vec::new();
+    let addr = |w: u8| SocketAddr::new(IpAddr::V4(Ipv4Addr::LOCALHOST), trk.child.port + (w % trk.socket_workers) as u16);
+    let ns = NS.fetch_add(1, Ordering::Relaxed);
+    let pl = Placement { conn_worker: vec![1, 0, 0], torrent_worker: vec![0, 1] };
+    let (h0, h1) = (id20(&hash_for(ns, 0, &pl, wm)), id20(&hash_for(ns, 1, &pl, wm)));
+    let d = json!({"idle_close": true, "socket_workers": sw, "swarm_workers": wm});
+    let (Some(mut a), Some(mut m)) = (WsConn::connect_patiently(addr(1)), WsConn::connect_patiently(addr(0))) else {
+        machinery_failure("idle-close phase: could not connect");
+    };
+    for (h, left) in [(&h0, 0), (&h1, 1)] {
+        a.send_text(json!({"action": "announce", "info_hash": h, "peer_id": id20(&pid_bytes(ns, 1)), "numwant": 0, "left": left, "event": "started"}).to_string());
+        if a.recv_text(5000).is_none() {
+            out.push(("ws/announce-unanswered".into(), "plain announce not answered".into(), d));
+            return (1, out);
+        }
+    }
+    let scrape = |m: &mut WsConn| -> Option<(u64, u64)> {
+        m.send_text(json!({"action": "scrape", "info_hash": [h0.clone(), h1.clone()]}).to_string());
+        let t = m.recv_text(5000)?;
+        let v: Value = serde_json::from_str(&t).ok()?;
+        let files = v.get("files")?.as_object()?;
+        let tot = |k: &str| files.values().map(|f| f.get(k).and_then(|x| x.as_u64()).unwrap_or(0)).sum::<u64>();
+        Some((tot("complete"), tot("incomplete")))
+    };
+    if scrape(&mut m) != Some((1, 1)) {
+        out.push(("ws/scrape-counts".into(), "monitor does not see the two entries just announced".into(), d));
+        return (1, out);
+    }
+    let t0 = Instant::now();
+    let mut closed_at = None;
+    let mut gone_at = None;
+    while t0.elapsed() < Duration::from_secs(20) {
+        if closed_at.is_none() && a.closed_within(300) {
+            closed_at = Some(t0.elapsed());
+        }
+        match scrape(&mut m) {
+            Some((0, 0)) => {
+                gone_at = Some(t0.elapsed());
+                break;
+            }
+            Some(_) => {}
+            None => {
+                out.push(("ws/fence-unanswered".into(), "monitor scrape not answered".into(), d));
+                return (1, out);
+            }
+        }
+        if let Some(c) = closed_at {
+            // five seconds after the tracker closed the connection the entries are still counted
+            if t0.elapsed() > c + Duration::from_secs(5) {
+                break;
+            }
+        }
+        std::thread::sleep(Duration::from_millis(100));
+    }
+    match (closed_at, gone_at) {
+        (None, None) => machinery_failure(&format!("idle-close phase vacuous: the tracker did not close the idle connection within 20 s (max_connection_idle = 2) [{}]", trk.label)),
+        (Some(c), None) => out.push(("ws/idle-closed-connection-leaves-peers".into(), format!("the tracker closed an idle connection after {:.1} s, five seconds later its two peer entries (torrents on different swarm workers) are still counted by a scrape [{}]", c.as_secs_f64(), trk.label), d)),
+        _ => {}
+    }
+    (1, out)
+}
+
 /// Judge one burst: up to 16 messages in flight towards a connection must all arrive; beyond that, losses are reported under
 /// their own signatures (the per-connection channel between the socket worker and the connection's writer has 16 slots)
 fn judge_burst(sw: u8, wm: u8, n: usize, s_w: u8, r_w: u8, r: (usize, usize, usize)) -> Vec<(String, String, Value)> {
@@ -1187,6 +1257,14 @@ pub fn main(args: &Args) -> ! {
         }
     }
     run.set("large_message_cases", size_cases);
+    // ---- connections closed by the tracker itself (idle)
+    let mut idle_cases = 0u64;
+    for &(sw, wm) in &size_cfgs {
+        let (n, v) = idle_close_phase(sw, wm);
+        idle_cases += n;
+        viols.lock().unwrap().extend(v);
+    }
+    run.set("idle_close_cases", idle_cases);
     run.set("pipelined_bursts", bursts);
     let mut vs = viols.into_inner().unwrap();
     vs.sort_by_key(|v| v.2["path"].as_array().map(|a| a.len()).unwrap_or(99));
